@@ -157,6 +157,38 @@ def validate_before_write(F, R):
                     out.append((bi, '?%s' % '/'.join(x.split('::')[-1] for x in ext)))
         return out
     intrinsic = {p: intrinsic_sites(p, b) for p, b in bodies.items()}
+
+    def prevalidated(p, what):
+        """Every caller of p reports the same error kind up front: an Err(<same variant>) exit that is decided
+        before the caller wrote anything and from whose deciding branch the call to p is still reachable."""
+        m = re.match(r'^(?:Err|ok_or)\((.*)\)$', what)
+        if not m or m.group(1) in ('?', ''):
+            return None
+        variant = m.group(1)
+        callers = [(q, bi) for q in bodies for bi, t, qs in calls[q] if p in qs]
+        if not callers:
+            return None
+        notes = []
+        for q, cb in callers:
+            b = bodies[q]
+            wsites = set(direct_w[q]) | {bi for bi, t, qs in calls[q] if any(x in may_write for x in qs)}
+            ok = False
+            for eb, jj, st in agg_sites(b, r'^std::result::Result$', 'Err'):
+                if err_variant(b, st) != variant:
+                    continue
+                sws = [d for d in b.dom.get(eb, ()) if d != eb and b.blocks[d]['term']['k'] == 'switch']
+                if not sws:
+                    continue
+                sb = max(sws, key=lambda d: len(b.dom.get(d, ())))
+                if cb not in b.reachable(sb) or cb in b.reachable(eb):
+                    continue
+                if any(w != sb and sb in b.reachable_after(w) for w in wsites):
+                    continue
+                ok = True
+            if not ok:
+                return None
+            notes.append(q)
+        return notes
     # V1: explicit error after a write in the same function
     n_fn = 0
     for p, b in sorted(bodies.items()):
@@ -171,6 +203,11 @@ def validate_before_write(F, R):
                 continue
             seen.add(key)
             before = [w for w in wsites if w != fb and fb in b.reachable_after(w)]
+            if before:
+                pv = prevalidated(p, what)
+                if pv:
+                    R.note('%s: %s after a write is unreachable in practice: every caller (%s) reports the same error before writing' % (p, what, ', '.join(pv)))
+                    before = []
             R.ob('C08.validate-before-write', key + '|after-own-write', not before,
                  'this function appends bytes to the output buffer and can still fail afterwards (%s): a failed encode leaves a partial packet on the wire (IoRef::encode has no rollback)' % what, b.loc(fb))
     R.floor('C08.validate-before-write', 'functions with intrinsic failure exits', n_fn, 5)
@@ -188,9 +225,25 @@ def validate_before_write(F, R):
                     if p in dirty or any(w != bi and bi in b.reachable_after(w) for w in wsites):
                         dirty[q] = p
                         changed = True
+    def only_constant_arguments(p):
+        """Every call of p passes a constant as the value to encode (e.g. the protocol name): a length
+        conversion inside p cannot fail for it."""
+        # resolved (monomorphic) call sites only: the expansion of `T::encode` to every impl is an over-approximation
+        sites = [(q, bi, t) for q in bodies for bi, t, qs in calls[q] if callee_name(t) == p]
+        if not sites:
+            return False
+        for q, bi, t in sites:
+            og = Origin(bodies[q]).of_operand(t['args'][0])
+            if not og or not all(l[0] in ('const', 'constx') or (l[0] == 'call' and re.search(r'::as_ref$', l[1] or '')) for l in og) or not any(l[0] in ('const', 'constx') for l in og):
+                return False
+        return True
     for p in sorted(bodies):
         if intrinsic[p]:
             whats = sorted({w for _, w in intrinsic[p]})
+            if p in dirty and all(w.startswith('?try_from') for w in whats) and only_constant_arguments(p):
+                R.note('%s: its only failure is the length conversion and every call passes a constant byte string' % p)
+                R.ob('C08.validate-before-write', '%s|%s|entered-after-write' % (p, '+'.join(whats)), True, '')
+                continue
             R.ob('C08.validate-before-write', '%s|%s|entered-after-write' % (p, '+'.join(whats)), p not in dirty,
                  'this function can fail (%s) and is called after its caller (%s, ...) has already appended bytes (fixed header / earlier fields): the error leaves a partial packet on the wire' % (
                      ', '.join(whats), dirty.get(p)), '%s:%s' % (bodies[p].file, bodies[p].line))
